@@ -421,11 +421,15 @@ def gen_hist(rng):
     shape = rng.choice([["sudo", "sudo"], ["sudo", "run"], ["run", "sudo", "run"], ["sudo", "sudo", "run"], ["sudo", "run", "sudo"],
                         [rng.choice(["sudo", "run"]) for _ in range(rng.randint(2, 4))]])
     steps = []
+    # the caller may keep ONE watchers list of its own and hand it to several commands
+    shared_kw = rng.sample(KW_POOL, rng.randint(0, 2)) if rng.random() < 0.25 else None
     for op in shape:
         st = {"op": op, "out": [], "err": [], "rcs": rng.choice([1, 5, 1000])}
         if op == "sudo":
             st["password"] = rng.choice([None, None, "p2", "p3"])
         st["kw"] = None if rng.random() < 0.7 else rng.sample(KW_POOL, rng.randint(0, 2))
+        if shared_kw is not None and rng.random() < 0.7:
+            st["kw"] = "shared"
         where = rng.choice(["out", "err", "both", "err"]) if op == "sudo" else rng.choice(["out", "out", "both"])
         for n in ("out", "err"):
             if where in (n, "both"):
@@ -435,7 +439,10 @@ def gen_hist(rng):
                 if t:
                     st[n] = [t] if rng.random() < 0.6 else cut(t, [rng.choice([1, 2, 3, 5]) for _ in range(3)])
         steps.append(st)
-    return {"kind": "hist", "prompt": prompt, "configured": configured, "steps": steps}
+    case = {"kind": "hist", "prompt": prompt, "configured": configured, "steps": steps}
+    if shared_kw is not None:
+        case["shared_kw"] = shared_kw
+    return case
 
 
 def run_hist(case):
@@ -457,13 +464,15 @@ def run_hist(case):
     cfg = Config(overrides={"sudo": {"password": "pw", "prompt": case["prompt"]}, "runners": {"local": R},
                             "run": {"watchers": list(conf_ws)}})
     c = Context(cfg)
+    before = list(c.config.run.watchers)  # whatever objects the configuration holds: they must stay the same ones
+    shared_before = list(shared)
     res = []
     for st in case["steps"]:
         pending[:] = [st]
         del made[:]
         kwargs = {"hide": True, "in_stream": False}
         if st["kw"] == "shared":
-            kwargs["watchers"] = shared  # the caller re-uses its own list (not generated; see known findings)
+            kwargs["watchers"] = shared  # the caller re-uses its own list
         elif st["kw"] is not None:
             kwargs["watchers"] = [Responder(re.escape(p), r) for p, r in st["kw"]]  # a fresh list for every command
         if st["op"] == "sudo" and st.get("password") is not None:
@@ -476,9 +485,10 @@ def run_hist(case):
         except Failure as e:
             raised = "Failure:" + type(e.reason).__name__
         now = list(c.config.run.watchers)
-        same = len(now) == len(conf_ws) and all(a is b for a, b in zip(now, conf_ws))
+        same = len(now) == len(before) and all(a is b for a, b in zip(now, before))
+        kw_same = len(shared) == len(shared_before) and all(a is b for a, b in zip(shared, shared_before))
         res.append({"writes": [w.decode() for r in made for w in r.stdin_writes], "raised": raised, "conf_same": same,
-                    "conf_len": len(now)})
+                    "conf_len": len(now), "kw_same": kw_same, "kw_len": len(shared)})
     return res
 
 
@@ -537,6 +547,9 @@ def judge_hist(case, res):
         if want is not None and Counter(r["writes"]) != want:
             return ("[history] %s: stdin received %r; its own watchers %r on its own output demand %r"
                     % (where, sorted(r["writes"]), step_watchers(case, st), sorted(want.elements())))
+        if not r.get("kw_same", True) and conf_why is None:
+            conf_why = "[history-config] %s: the watchers list handed in by the caller was modified by the command (%d given, now %d)" % (
+                where, len(case.get("shared_kw") or []), r["kw_len"])
         if not r["conf_same"] and conf_why is None:
             conf_why = "[history-config] %s: config.run.watchers was modified by the command (%d configured, now %d)" % (where, len(case["configured"]), r["conf_len"])
     return conf_why
@@ -553,7 +566,8 @@ def hist_lines(case):
     for n in ("out", "err"):
         cmds = []
         for st in case["steps"]:
-            kw = "~" if st["kw"] is None else (";".join(enc_lit(p) for p, _ in st["kw"]) or "-")
+            kwl = case["shared_kw"] if st["kw"] == "shared" else st["kw"]
+            kw = "~" if kwl is None else (";".join(enc_lit(p) for p, _ in kwl) or "-")
             reads = enc_chunks(reads_of(st[n], st["rcs"]))
             cmds.append(("s:%s:%s:%s" % (enc_lit(case["prompt"]), kw, reads)) if st["op"] == "sudo" else "r:%s:%s" % (kw, reads))
         lines.append("hist %s %s" % (conf, " ".join(cmds)))
